@@ -10,7 +10,8 @@ CONSTANTS
   AsIs_D1 = FALSE
   AsIs_D4 = FALSE
   AsIs_D7 = FALSE
-  Scenarios = {1, 2, 3, 4}
+  Scenarios = {0, 1, 2, 3, 4}
+  GenLen = 2
 INVARIANT Linearizable
 INVARIANT LockDiscipline
 CHECK_DEADLOCK FALSE
